@@ -65,7 +65,7 @@ func init() {
 var (
 	c16Logs      = []string{"absent", "unreadable", "foreign-only", "raw", "variable", "uri", "local", "variable+uri", "raw+variable+uri", "foreign-raw+variable"}
 	c16Vars      = []string{"present", "absent", "short", "dotdot-name", "absolute-name", "symlink-out", "nul-name", "surrogate-name"}
-	c16Quotes    = []string{"none", "tpm+entry", "tpm", "report-proto", "raw+certs+entry", "raw+certs", "raw", "certs-only+entry", "hex(raw+certs+entry)", "base64(raw+certs+entry)", "tdx-raw", "tdx-tpm", "garbage", "empty-measurement"}
+	c16Quotes    = []string{"none", "tpm+entry", "tpm", "report-proto", "raw+certs+entry", "raw+certs", "raw", "certs-only+entry", "hex(raw+certs+entry)", "base64(raw+certs+entry)", "tdx-raw", "tdx-tpm", "garbage", "empty-measurement", "tdx-tpm-long-mrtd", "tdx-tpm-short-mrtd"}
 	c16Providers = []string{"nil", "ok+entry", "ok", "failing", "tdx"}
 	c16Getters   = []string{"ok", "nil", "failing"}
 )
@@ -313,6 +313,16 @@ func runC16(r *core.Run) {
 		case "tdx-tpm":
 			q, _ = proto.Marshal(&tpmpb.Attestation{TeeAttestation: &tpmpb.Attestation_TdxAttestation{TdxAttestation: TdxQuote(mrtd)}})
 			return q, false, true, true
+		case "tdx-tpm-long-mrtd", "tdx-tpm-short-mrtd":
+			// a proto-form TDX quote whose mr_td is not 48 bytes long (the raw form cannot say that)
+			tq := TdxQuote(mrtd)
+			bad := append(append([]byte(nil), mrtd...), bytes.Repeat([]byte{0x77}, []int{1, 16, 48}[r.Intn(3, "mrtd-extra")])...)
+			if kind == "tdx-tpm-short-mrtd" {
+				bad = mrtd[:[]int{0, 1, 47}[r.Intn(3, "mrtd-short")]]
+			}
+			tq.GetTdQuoteBody().MrTd = bad
+			q, _ = proto.Marshal(&tpmpb.Attestation{TeeAttestation: &tpmpb.Attestation_TdxAttestation{TdxAttestation: tq}})
+			return q, false, false, true
 		case "garbage":
 			return []byte("this is not an attestation in any supported format \xff\xfe"), false, false, false
 		case "empty-measurement":
